@@ -25,7 +25,22 @@ thread_local! {
     static LOCK_SITES: Cell<u64> = const { Cell::new(0) };
 }
 
+thread_local! {
+    static TL_HITS: [Cell<u64>; 64] = const { [const { Cell::new(0) }; 64] };
+}
+/// Adds this thread's site counters to the global ones.
+pub fn flush_hits() {
+    let _ = TL_HITS.try_with(|h| {
+        for (i, c) in h.iter().enumerate() {
+            let v = c.replace(0);
+            if v > 0 {
+                SITE_HITS[i].fetch_add(v, Ordering::Relaxed);
+            }
+        }
+    });
+}
 pub fn set_role(role: u8, tid: u16, seed: u64) {
+    flush_hits();
     ROLE.with(|r| r.set(role));
     TID.with(|t| t.set(tid));
     TRNG.with(|t| t.set(crate::util::splitmix(seed) | 1));
@@ -74,6 +89,7 @@ pub fn events_take() -> Vec<EventRec> {
     std::mem::take(&mut *EVENTS.lock().unwrap())
 }
 pub fn site_hits() -> Vec<(u32, u64)> {
+    flush_hits();
     SITE_HITS
         .iter()
         .enumerate()
@@ -82,6 +98,7 @@ pub fn site_hits() -> Vec<(u32, u64)> {
         .collect()
 }
 pub fn site_hit_count(site: u32) -> u64 {
+    flush_hits();
     SITE_HITS[site as usize % 64].load(Ordering::Relaxed)
 }
 pub fn signature_take() -> u64 {
@@ -313,8 +330,16 @@ pub fn is_lock_site(site: u32) -> bool {
 fn hook(site: u32, a: usize, b: usize) {
     let role = role();
     if site >= 10 {
-        SITE_HITS[site as usize % 64].fetch_add(1, Ordering::Relaxed);
-        if role != ROLE_NONE {
+        // NOTE: no atomic read-modify-write here for the window / park / spin sites (20..39): on
+        // x86 a locked instruction is a full fence, and a fence injected between two of flurry's
+        // own accesses would hide store-buffering bugs from the native stress runs. Counters are
+        // thread-local and flushed when the thread changes its role.
+        let _ = TL_HITS.try_with(|h| {
+            let c = &h[site as usize % 64];
+            c.set(c.get() + 1);
+        });
+        let fence_free = (20..40).contains(&site);
+        if role != ROLE_NONE && !fence_free {
             let tid = TID.try_with(|t| t.get()).unwrap_or(0) as u64;
             let _ = SIGNATURE.fetch_update(Ordering::Relaxed, Ordering::Relaxed, |s| {
                 Some(fnv(s, (tid << 8) | site as u64))
